@@ -662,7 +662,8 @@ class TCPHiddenServiceEndpoint(object):
         else:
             if not self.ephemeral:
                 for hs in self._config.HiddenServices:
-                    if hs.dir == os.path.abspath(self.hidden_service_dir):
+                    # (authenticated services have no .dir)
+                    if hasattr(hs, 'dir') and hs.dir == os.path.abspath(self.hidden_service_dir):
                         self.hiddenservice = hs
 
         assert self.hiddenservice is not None, "internal error"
